@@ -28,6 +28,10 @@ type Taint struct {
 	Through func(key string) bool
 	// KillField: struct fields (pkg.Type.field) never considered labelled.
 	KillField func(id string) bool
+	// NoAbsorb: the label does not move from a stored value to the container it is stored in.
+	NoAbsorb bool
+	// SkipArg: do not propagate this labelled argument into the callee (e.g. the call site is guarded).
+	SkipArg func(f *ssa.Function, call ssa.CallInstruction, arg ssa.Value) bool
 
 	params  map[*ssa.Function]map[int]bool
 	rets    map[*ssa.Function]map[int]bool
@@ -54,6 +58,14 @@ func (t *Taint) init() {
 	t.fields = map[string]bool{}
 	t.roots = map[*ssa.Function]map[ssa.Value]bool{}
 	t.fvs = map[*ssa.Function]map[int]bool{}
+}
+
+// SeedField labels a struct field (pkg.Type.field) up front: every load of it is a source.
+func (t *Taint) SeedField(id string) {
+	if t.params == nil {
+		t.init()
+	}
+	t.fields[id] = true
 }
 
 // SeedParam labels a parameter up front.
@@ -322,7 +334,7 @@ func (t *Taint) step(f *ssa.Function) {
 		for _, in := range b.Instrs {
 			switch x := in.(type) {
 			case *ssa.Store:
-				if !t.Tainted(f, x.Val) {
+				if t.NoAbsorb || !t.Tainted(f, x.Val) {
 					continue
 				}
 				switch a := x.Addr.(type) {
@@ -339,7 +351,7 @@ func (t *Taint) step(f *ssa.Function) {
 					t.addRoot(f, ResolveLocal(a.X))
 				}
 			case *ssa.MapUpdate:
-				if t.Tainted(f, x.Value) {
+				if !t.NoAbsorb && t.Tainted(f, x.Value) {
 					t.addRoot(f, ResolveLocal(x.Map))
 				}
 			case *ssa.MakeClosure:
@@ -399,11 +411,14 @@ func (t *Taint) step(f *ssa.Function) {
 					}
 					for i, a := range args {
 						if isNillable(a.Type()) && t.Tainted(f, a) {
+							if t.SkipArg != nil && t.SkipArg(f, x, a) {
+								continue
+							}
 							t.markParamFrom(g, i+off, f, a)
 						}
 					}
 					// container absorption: a named-map method that writes its receiver
-					if isNM, w := namedMapMethodEffect(g); isNM && w && len(args) > 1 {
+					if isNM, w := namedMapMethodEffect(g); !t.NoAbsorb && isNM && w && len(args) > 1 {
 						for _, a := range args[1:] {
 							if isNillable(a.Type()) && canHold(args[0].Type(), a.Type()) && t.Tainted(f, a) {
 								t.addRoot(f, ResolveLocal(args[0]))
